@@ -142,6 +142,43 @@ func run(req svc.Request) svc.Response {
 	case <-done:
 	case <-time.After(20 * time.Second):
 	}
+	// linger: all connections that asked for it are watched together
+	{
+		type lw struct {
+			l     *live
+			lg    time.Duration
+			last  int
+			since time.Time
+		}
+		var ws []*lw
+		for i, l := range ls {
+			if lg := req.Scripts[i].LingerMs; lg > 0 && !l.se.Script.UDP && l.se.Conn != nil {
+				ws = append(ws, &lw{l, time.Duration(lg) * time.Millisecond, len(l.se.Conn.Output()), time.Now()})
+			}
+		}
+		// (a server that never stops writing - vnc pushes frames at 30 Hz - is left after
+		// three times the quiet period)
+		var maxLg time.Duration
+		for _, w := range ws {
+			maxLg = max(maxLg, w.lg)
+		}
+		limit := time.Now().Add(3 * maxLg)
+		for len(ws) > 0 && time.Now().Before(limit) {
+			quiet := true
+			for _, w := range ws {
+				if n := len(w.l.se.Conn.Output()); n != w.last {
+					w.last, w.since = n, time.Now()
+				}
+				if time.Since(w.since) < w.lg {
+					quiet = false
+				}
+			}
+			if quiet {
+				break
+			}
+			time.Sleep(5 * time.Millisecond)
+		}
+	}
 	for _, l := range ls {
 		l.se.Finish()
 		l.ended = time.Now()
